@@ -17,10 +17,11 @@ import (
 )
 
 type rawCase struct {
-	Cmds  [][]string `json:"cmds_hex"` // each command: hex args
-	Cuts  []int      `json:"cuts,omitempty"`
-	GapMs int        `json:"gap_ms,omitempty"`
-	Stall int        `json:"stall_after_byte,omitempty"`
+	Cmds    [][]string `json:"cmds_hex"` // each command: hex args
+	Cuts    []int      `json:"cuts,omitempty"`
+	GapMs   int        `json:"gap_ms,omitempty"`
+	Stall   int        `json:"stall_after_byte,omitempty"`
+	Blocked bool       `json:"sent_while_blocked,omitempty"`
 }
 
 func hexs(args ...string) []string {
@@ -250,6 +251,68 @@ func (r *c01Runner) stalled(cmds [][]string, cut int, raws [][]byte) (string, er
 	return "", nil
 }
 
+// the pipeline arrives while the connection is blocked in BLPOP (the server reads ahead to notice a closed
+// peer): after the block ends, every pipelined command is answered, in order, with the baseline's bytes
+func (r *c01Runner) whileBlocked(cmds [][]string, cuts []int, gapMs int, raws [][]byte) (string, error) {
+	c, err := r.fresh()
+	if err != nil {
+		return "", err
+	}
+	defer c.Close()
+	if err := c.Send(bs("BLPOP", "c01-blocked-on", "0")); err != nil {
+		return "", err
+	}
+	queued := false
+	for t := 0; t < 200 && !queued; t++ {
+		line, err := r.srv.Ctl("DUMP 0 0", 2*time.Second)
+		if err == nil {
+			var d struct{ Waiters map[string]int }
+			if json.Unmarshal([]byte(line), &d) == nil && d.Waiters["c01-blocked-on"] >= 1 {
+				queued = true
+			}
+		}
+		if !queued {
+			time.Sleep(5 * time.Millisecond)
+		}
+	}
+	if !queued {
+		return "", fmt.Errorf("BLPOP never registered")
+	}
+	var stream []byte
+	for _, h := range cmds {
+		stream = append(stream, encodeCmd(unhexs(h))...)
+	}
+	prev := 0
+	for _, cut := range append(append([]int{}, cuts...), len(stream)) {
+		if cut <= prev || cut > len(stream) {
+			continue
+		}
+		if err := c.SendRaw(stream[prev:cut]); err != nil {
+			return "", err
+		}
+		prev = cut
+		time.Sleep(time.Duration(gapMs) * time.Millisecond)
+	}
+	b, err := dial(r.srv.Port)
+	if err != nil {
+		return "", err
+	}
+	b.Do(3*time.Second, bs("RPUSH", "c01-blocked-on", "x")...)
+	b.Close()
+	if n, err := c.Read(4 * time.Second); err != nil || n.Kind != '*' || len(n.Elems) != 2 || string(n.Elems[1].Str) != "x" {
+		return fmt.Sprintf("BLPOP with %d bytes pipelined behind it (cuts %v) was not completed by the push: %v", len(stream), cuts, err), nil
+	}
+	for i := range cmds {
+		if _, err := c.Read(6 * time.Second); err != nil {
+			return fmt.Sprintf("%d commands sent in %d segments while the connection was blocked in BLPOP: reply %d is missing or malformed: %v (received %q)", len(cmds), len(cuts)+1, i, err, tailBytes(c.Raw.Bytes(), 80)), nil
+		}
+	}
+	if got, all := c.Raw.Bytes(), append([]byte("*2\r\n$14\r\nc01-blocked-on\r\n$1\r\nx\r\n"), bytes.Join(raws, nil)...); !bytes.Equal(got, all) {
+		return fmt.Sprintf("%d commands sent in %d segments while the connection was blocked in BLPOP: the reply bytes differ from one-command-per-write (%d bytes vs %d)", len(cmds), len(cuts)+1, len(got), len(all)), nil
+	}
+	return "", nil
+}
+
 func rawsLen(cmds [][]string) [][]byte {
 	var out [][]byte
 	for _, h := range cmds {
@@ -280,7 +343,8 @@ func runC01(cfg runCfg, res *Result) error {
 		res.Replays = append(res.Replays, path)
 	}
 	var stallCuts []int
-	stalls := 0
+	var blockedCuts [][]int
+	stalls, blockedRuns := 0, 0
 	checkPipeline := func(cmds [][]string, cutSets [][]int, gaps []int) (string, any, error) {
 		raws, why, err := r.baseline(cmds)
 		if err != nil {
@@ -306,6 +370,16 @@ func runC01(cfg runCfg, res *Result) error {
 				}
 				return fmt.Sprintf("reply bytes depend on the segmentation: cuts %v give %d bytes, one-command-per-write gives %d; first difference at byte %d", cuts, len(got), len(want), d),
 					rawCase{Cmds: cmds, Cuts: cuts, GapMs: gaps[i%len(gaps)]}, nil
+			}
+		}
+		for _, cuts := range blockedCuts {
+			why, err := r.whileBlocked(cmds, cuts, 12, raws)
+			if err != nil {
+				return "", nil, err
+			}
+			blockedRuns++
+			if why != "" {
+				return why, rawCase{Cmds: cmds, Cuts: cuts, Blocked: true}, nil
 			}
 		}
 		for _, cut := range stallCuts {
@@ -352,6 +426,10 @@ func runC01(cfg runCfg, res *Result) error {
 		}
 		if rc.Stall > 0 {
 			stallCuts = []int{rc.Stall}
+		}
+		if rc.Blocked {
+			blockedCuts = [][]int{rc.Cuts}
+			cutSets = [][]int{{}}
 		}
 		why, _, err := checkPipeline(rc.Cmds, cutSets, []int{rc.GapMs})
 		if err != nil {
@@ -411,6 +489,16 @@ func runC01(cfg runCfg, res *Result) error {
 		for k := 0; k < ns && first+1 < len(stream); k++ {
 			stallCuts = append(stallCuts, first+1+g.Intn(len(stream)-first-1))
 		}
+		// the same stream sent while the connection is blocked: in one piece, in two, in many
+		blockedCuts = nil
+		if i%2 == 0 || cfg.tier == "thorough" {
+			blockedCuts = [][]int{{}, {len(stream) / 2}}
+			var many []int
+			for p := 5 + g.Intn(9); p < len(stream) && len(many) < 12; p += 1 + g.Intn(1+len(stream)/6) {
+				many = append(many, p)
+			}
+			blockedCuts = append(blockedCuts, many)
+		}
 		res.Histories++
 		if len(res.Samples) < 2 {
 			res.Samples = append(res.Samples, fmt.Sprintf("pipeline of %d commands, %d bytes, %d segmentations; first command %q", n, len(stream), len(cutSets), unhexs(cmds[0])))
@@ -425,6 +513,7 @@ func runC01(cfg runCfg, res *Result) error {
 	}
 	res.Extra["pipelines"] = res.Histories
 	res.Extra["stalled_peer_runs"] = stalls
+	res.Extra["sent_while_blocked_runs"] = blockedRuns
 
 	// request deserializer vs model
 	np := 0
@@ -476,6 +565,22 @@ func genParseInput(g *rand.Rand) []byte {
 		case 11:
 			return []byte("PING\r\n")
 		case 12:
+			if g.Intn(2) == 0 {
+				// streamed strings and aggregates: chunk headers with every kind of length
+				n := []string{"-3", "-2", "-1", "0", "1", "3", "4", "99", "x", "", "+3", "9223372036854775807", "-9223372036854775808"}[g.Intn(13)]
+				switch g.Intn(5) {
+				case 0:
+					return []byte("$?\r\n;" + n + "\r\nabc\r\n;0\r\n")
+				case 1:
+					return []byte("*2\r\n$4\r\nECHO\r\n$?\r\n;" + n + "\r\n;0\r\n")
+				case 2:
+					return []byte("!?\r\n;" + n + "\r\nerr\r\n;0\r\n")
+				case 3:
+					return []byte("$?\r\n;3\r\nabc\r\n;" + n + "\r\nxy\r\n;0\r\n")
+				default:
+					return []byte("*?\r\n$?\r\n;" + n + "\r\nab\r\n;0\r\n.\r\n")
+				}
+			}
 			return []byte("~1\r\n$1\r\nx\r\n")
 		default:
 			n := g.Intn(6)
